@@ -270,3 +270,53 @@ Definition pc_report (rtol atol eps : float) (c : pcase)
 Definition pc_ok (rtol atol eps : float) (c : pcase) : bool :=
   let '(a, b, _, _) := pc_report rtol atol eps c in
   (Nat.eqb (length a) (length (pc_obs c)) && forallb (fun x => x) a && forallb (fun x => x) b)%bool.
+
+(* ---- C03: the two routes on the same data ----------------------------------------------
+   cf / cs : the feature-space and the sample-space case of one data set;  cov_obs, kern_obs:
+   skmatter.utils.pcovr_covariance / pcovr_kernel called directly.
+   flags: [C~ vs impl; K~ vs impl; T T^T; inverse_transform(T); predict(T=T); singular values]
+   where the last four compare the MODEL's two routes with each other.                      *)
+Definition c03_cross (rtol atol : float) (cf cs : pcase) (cov_obs kern_obs : fmat)
+  : list bool * list float :=
+  let ef := env_of (pc_env cf) in
+  let cv := eval_f ef (cov_prog (pc_n cf) (pc_m cf) (pc_p cf)) in
+  let kn := eval_f ef (kern_prog (pc_n cf) (pc_m cf) (pc_p cf)) in
+  let of := pc_outputs cf in let os := pc_outputs cs in
+  let pick (l : list fmat) i := nth i l [] in
+  let pairs := [ (cv, cov_obs); (kn, kern_obs);
+                 (pick of 3%nat, pick os 3%nat); (pick of 5%nat, pick os 5%nat);
+                 (pick of 7%nat, pick os 7%nat); (pick of 8%nat, pick os 8%nat) ] in
+  (map (fun ab => fclose rtol atol (fst ab) (snd ab)) pairs,
+   map (fun ab => fdev (fst ab) (snd ab)) pairs).
+
+(* ---- C04: the mixed objective of PCovR's own subspace and of competitor subspaces --------
+   c : a sample-space case (V = top-k eigenvectors of K~);  Qs : orthonormal competitors;
+   own_obs : the loss recomputed from the implementation's transform / inverse_transform;
+   comp_obs : the competitors' losses computed by numpy.
+   flags: (own vs impl) :: (own vs tr K~ - sum S) :: per competitor [model vs numpy; Q^T Q = I;
+           own <= competitor (up to rounding)]                                               *)
+Definition set_Q (env : list fmat) (Q : fmat) : list fmat := firstn vQ env ++ [Q].
+
+Definition c04_report (rtol atol eps : float) (c : pcase) (Qs : list fmat) (own_obs : fmat)
+                      (comp_obs : list fmat) : list bool * list float * list float :=
+  let n := pc_n c in let m := pc_m c in let p := pc_p c in let k := pc_k c in
+  let e := env_of (pc_env c) in
+  let own := eval_f e (loss_prog n m p k (eVs n k)) in
+  let ownx := eval_f e (lossx_prog n m k (eVs n k)) in
+  let owny := eval_f e (lossy_prog n p k (eVs n k)) in
+  let trform := eval_f e (MSub (MTrace (kern_prog n m p))
+                               (MMul (MOnes 1 k) (eS k))) in
+  let ownv := fget own 0 0 in
+  let comp := map (fun Q => let e' := env_of (set_Q (pc_env c) Q) in
+                            (fget (eval_f e' (loss_prog n m p k (eQ n k))) 0 0,
+                             fmaxabs (eval_f e' (MSub (MMul (MTr (eQ n k)) (eQ n k)) (MId k))))) Qs in
+  let res := pc_residuals c in
+  ( [fclose rtol atol own own_obs; fclose rtol atol own trform]
+    ++ map (fun rs => leb (fst rs) (eps * (1 + snd rs))) res
+    ++ concat (map2l (fun cq ob =>
+                 let lq := fst cq in
+                 [fclose rtol atol [[lq]] ob; leb (snd cq) eps;
+                  leb ownv (lq + (atol + rtol * (if ltb lq 0 then - lq else lq)))])
+               comp comp_obs),
+    [ownv; fget ownx 0 0; fget owny 0 0; fget trform 0 0] ++ map fst comp,
+    map fst res ).
